@@ -415,6 +415,12 @@ func init() {
 			if in.equal(e, target, nil).IsTrue() {
 				return in.M.True
 			}
+			if _, isNat := e.T.(*nativeType); !isNat && hasMethod(in, e.T, "Is") {
+				r := in.invokeMethod(e, "Is", fr, target).(*term.T)
+				if in.branch(r) {
+					return in.M.True
+				}
+			}
 			u, ok := in.unwrapErr(e)
 			if !ok {
 				break
@@ -884,4 +890,65 @@ func init() {
 		}
 		return Iface{}
 	})
+}
+
+func init() {
+	reg := func(name string, f Intrinsic) { intrinsics[name] = f }
+
+	reg("internal/abi.NoEscape", func(in *Interp, fr *frame, a []Value, c *ssa.CallCommon) Value { return a[0] })
+	reg("(*strings.Builder).String", func(in *Interp, fr *frame, a []Value, c *ssa.CallCommon) Value {
+		p := a[0].(Ptr)
+		bt := in.P.Pkgs["strings"].Type("Builder").Type()
+		st := bt.Underlying().(*types.Struct)
+		for i := 0; i < st.NumFields(); i++ {
+			if st.Field(i).Name() == "buf" {
+				s := in.load(Ptr{p.Obj, p.Off + in.lay(bt).fields[i]}, st.Field(i).Type()).(Slice)
+				if s.Obj == nil {
+					return Str{}
+				}
+				return in.strFromTerms(in.sliceTermsRace(s))
+			}
+		}
+		panic(engineErr("strings.Builder layout"))
+	})
+	reg("unsafe.String", func(in *Interp, fr *frame, a []Value, c *ssa.CallCommon) Value {
+		panic(engineErr("unsafe.String"))
+	})
+
+	// multihash.Sum: identity is exact, every other hash is an uninterpreted function.
+	reg("github.com/multiformats/go-multihash.Sum", func(in *Interp, fr *frame, a []Value, c *ssa.CallCommon) Value {
+		data := a[0].(Slice)
+		code := in.concretise(a[1].(*term.T), "mh-code")
+		length := in.concInt(a[2].(*term.T), "mh-length")
+		var terms []*term.T
+		if data.Obj != nil {
+			terms = in.sliceTermsRace(data)
+		}
+		var digest []*term.T
+		if code == 0 {
+			if length >= 0 && length != len(terms) {
+				return Tuple{Slice{ES: 1}, in.newErr("the length of the identity hash must be equal to the length of the data", Iface{}, "other")}
+			}
+			digest = terms
+		} else {
+			n := length
+			if n <= 0 {
+				n = 32
+			}
+			digest = in.hashUF(code, n, terms)
+		}
+		if code >= 128 || len(digest) >= 128 {
+			panic(engineErr("multihash.Sum model: code/length need multi-byte varints"))
+		}
+		out := append([]*term.T{in.M.BV(code, 8), in.M.BV(uint64(len(digest)), 8)}, digest...)
+		return Tuple{in.newByteSlice(out), Iface{}}
+	})
+}
+
+func init() {
+	intrinsics["internal/bytealg.MakeNoZero"] = func(in *Interp, fr *frame, a []Value, c *ssa.CallCommon) Value {
+		n := in.concInt(a[0].(*term.T), "makenozero")
+		o := in.newArrayObject(types.Typ[types.Uint8], n)
+		return Slice{Obj: o, Len: n, Cap: n, ES: 1}
+	}
 }
